@@ -140,18 +140,22 @@ PROPS["C15"] = {
 PROPS["C21"] = {
     "title": "Aggregates agree with their definitions",
     "kani": [("kani/query/core_types.rs", r"^c21_")],
-    "e2": ["c21"],
+    "e2": ["c21", "grouping"],
     "functions_encoded": ["<executor::core_types::Value as Hash>::hash", "derived <Value as PartialEq>::eq",
-                          "projection_sort::execute_aggregate::{closure#1} (Sum arm, entered arm-locally)"],
+                          "projection_sort::execute_aggregate::{closure#1} (Sum arm, entered arm-locally)",
+                          "projection_sort::execute_aggregate (collection loop, entry to the first statement after the loop)"],
     "bounds": {"values": "all payload bit patterns for Int, Float (incl. NaN, +-0), Bool, DateTime, NodeId pairs", "unwind": 34},
-    "stubs": ["Hasher = transparent byte collector (32 bytes), so equal hash means equal byte stream fed to any hasher"],
+    "stubs": ["Hasher = transparent byte collector (32 bytes), so equal hash means equal byte stream fed to any hasher",
+              "grouping loop: input = stream of 3 (4 thorough) Ok rows, grouping key of a row = symbolic id, limit checks -> Ok, maps as association "
+              "lists forking on key equality, a BuildHasher as an uninterpreted function of the key id"],
     "assumptions": [],
     "outside_claim": ["avg/min/max/collect/percentiles, DISTINCT variants, strings/lists/maps as grouping keys",
                       "SumDistinct arm (same code shape, not entered arm-locally), float rounding of sums"],
     "level_text": "Bounded model checking (Kani/CBMC) of the grouping-key contract (keys equal under == feed identical bytes to the "
                   "hasher: one group per distinct key) and path-wise symbolic execution (z3) of the Sum arm of the aggregate closure "
                   "over <= 2 (quick) / 3 (thorough) rows of symbolic kind: a sum of Ints is the exact sum or a Float, never a wrapped "
-                  "Int. Partial: grouping keys and sum arithmetic only.",
+                  "Int; and of the collection loop: two rows share a group exactly when their grouping keys are equal, every row is in "
+                  "exactly one group. Partial: grouping and sum arithmetic only.",
     "level_note": "Trusted: Kani/CBMC/CaDiCaL; HashMap itself (std) is trusted given a consistent Hash/Eq.",
     "design_ref": "DESIGN.md section 3, C21",
 }
